@@ -168,7 +168,7 @@ class TocFetcher:
                          self.port, self.nbr_of_items, self._crc)
 
             cache_data = self._toc_cache.fetch(self._crc)
-            if (cache_data):
+            if (cache_data and self._is_cache_usable(cache_data)):
                 self.toc.toc = cache_data
                 logger.info('TOC for port [%s] found in cache' % self.port)
                 self._toc_fetch_finished()
@@ -205,6 +205,18 @@ class TocFetcher:
             else:  # No more variables in TOC
                 self._toc_cache.insert(self._crc, self.toc.toc)
                 self._toc_fetch_finished()
+
+    def _is_cache_usable(self, cache_data):
+        """The cache is keyed on the CRC only, make sure that what was found
+        there really is a TOC of this kind and size"""
+        try:
+            elements = [element for group in cache_data.values()
+                        for element in group.values()]
+            return (len(elements) == self.nbr_of_items and
+                    all(isinstance(element, self.element_class)
+                        for element in elements))
+        except Exception:
+            return False
 
     def _request_toc_element(self, index):
         """Request information about a specific item in the TOC"""
